@@ -21,7 +21,7 @@ Import ListNotations.
 From DD Require Import Base.PyStr Base.Value Diff.Tree Diff.DiffModel Hash.HashModel Hash.Equiv
   Hash.HashProofsBase Hash.HashProofsC07 DiffIO.DiffIOModel DiffIO.DiffIOProofs Options.OptModel
   HashDiff.HashDiffModel HashDiff.HashDiffProofsDefault HashDiff.HashDiffProofsNum
-  HashDiff.HashDiffProofsAtoms HashDiff.HashDiffProofsInv HashDiff.HashDiffProofsLift
+  HashDiff.HashDiffProofsAtoms HashDiff.HashDiffProofsInv HashDiff.HashDiffProofsLift HashDiff.HashDiffProofsKeys
   HashDiff.HashDiffProofsWitness HashDiff.HashDiffProofsSat.
 
 (* ------------------------------------------------------------------------- *)
@@ -128,6 +128,37 @@ Theorem C12_verdict_iff_hash_partial :
   (hash_eqF H c F rep t1 t2 = true <-> verdictF H udiff c F rep pairs t1 t2 = DEmpty).
 Proof. exact verdict_iff_hash. Qed.
 Print Assumptions C12_verdict_iff_hash_partial.
+
+(* the relational component [cohk] of the guard follows from a PER-KEY boolean condition
+   [key_okb]: K1 guard, ASCII, no bool key, a float key only when key cleaning renders numbers
+   (an ignore_* option and a precision in force), a bytes key under ignore_string_case without
+   ignore_string_type_changes already lower-case *)
+Theorem C12_key_coherence_partial :
+  forall F k k', key_okb F k = true -> key_okb F k' = true ->
+  (py_eq (OptProofsKeys.ckey F k) (OptProofsKeys.ckey F k') = true <-> eqvA F k k') /\ cohk F k k' = true.
+Proof.
+  intros F k k' A B. split; [apply key_coh; assumption|].
+  apply cohkb_cohk. unfold cohkb. rewrite A, B. reflexivity.
+Qed.
+Print Assumptions C12_key_coherence_partial.
+
+(* ... hence the main theorem with the guard [lift_guardb], all of whose components on dict
+   keys are per-key checks *)
+Theorem C12_hash_iff_diff_simple_guard_partial :
+  forall (H : pystr -> pystr),
+  (forall s, sepfree (H s)) -> (forall s t, H s = H t -> s = t) -> (forall s, lower (H s) = H s) ->
+  forall udiff c F rep pairs t1 t2,
+  shared F = true -> thr_num c <= thr_den c -> lift_guardb c F rep t1 t2 = true ->
+  (hash_pure H (hoptsF F (DiffModel.ignore_private c) rep) t1 = hash_pure H (hoptsF F (DiffModel.ignore_private c) rep) t2 <->
+   fst (run_diff_ioF H udiff c F rep pairs t1 t2) = []).
+Proof. exact hash_iff_diff_b. Qed.
+Print Assumptions C12_hash_iff_diff_simple_guard_partial.
+
+Theorem C12_simple_guard_satisfiable :
+  lift_guardb cfg_def F_all false ex_a ex_b = true /\ lift_guardb cfg_def F_all true ex_a ex_b = true /\
+  (forall c F rep t1 t2, lift_guardb c F rep t1 t2 = true -> lift_guard c F rep t1 t2 = true).
+Proof. destruct lift_guardb_example as [A B]. repeat split; try assumption. exact lift_guardb_sound. Qed.
+Print Assumptions C12_simple_guard_satisfiable.
 
 (* inside the guard the verdict is independent of the pairing heuristic (cutoff_distance_for_pairs,
    cutoff_intersection_for_pairs, max_passes, cache_size occur in the model only through [pairs]) *)
